@@ -73,7 +73,7 @@ pub fn run_c12(tier: Tier) -> ! {
                         continue;
                     }
                     let max_visits = 2 * (g as u32 + hsa as u32) + 6;
-                    let cfg = RCfg { ts, hsa, gap_factor: g, slot_bits: 100, ttr: None, period_div: if (ts + hsa) % 2 == 0 { 8 } else { 4 }, members0: members0.clone(), scripts: vec![], multi: false, mon: RMon::C12, max_visits, join_budget: tier.pick(1, 2), origin_us: 0 };
+                    let cfg = RCfg { ts, hsa, gap_factor: g, slot_bits: 100, ttr: None, period_div: if (ts + hsa) % 2 == 0 { 8 } else { 4 }, members0: members0.clone(), scripts: vec![], multi: false, mon: RMon::C12, max_visits, join_budget: tier.pick(1, 2), origin_us: 0, baud: 1 };
                     cfgs.push((format!("TS{ts} HSA{hsa} G{g} members{members0:?}"), cfg, 60, tier.pick(60.0, 3000.0), tier.pick(30_000, 400_000)));
                 }
             }
@@ -89,15 +89,27 @@ pub fn run_c12(tier: Tier) -> ! {
             for g in tier.pick(vec![1u8], vec![1, 2]) {
                 let gap_len = hsa as u32;
                 let max_visits = if hsa > 100 { 2 * (g as u32) + gap_len + 20 } else { 2 * (g as u32 + 8) + 6 };
-                let cfg = RCfg { ts, hsa, gap_factor: g, slot_bits: 100, ttr: None, period_div: 4, members0: members0.clone(), scripts: vec![], multi: false, mon: RMon::C12, max_visits, join_budget: 1, origin_us: 0 };
+                let cfg = RCfg { ts, hsa, gap_factor: g, slot_bits: 100, ttr: None, period_div: 4, members0: members0.clone(), scripts: vec![], multi: false, mon: RMon::C12, max_visits, join_budget: 1, origin_us: 0, baud: 1 };
                 cfgs.push((format!("high TS{ts} HSA{hsa} G{g} members{members0:?}"), cfg, if hsa > 100 { 300 } else { 60 }, tier.pick(60.0, 3000.0), tier.pick(30_000, 400_000)));
             }
         }
     }
     if tier == Tier::Thorough {
         for ts in [0u8, 62, 125] {
-            let cfg = RCfg { ts, hsa: 126, gap_factor: 1, slot_bits: 100, ttr: None, period_div: 4, members0: vec![], scripts: vec![], multi: false, mon: RMon::C12, max_visits: 140, join_budget: 1, origin_us: 0 };
+            let cfg = RCfg { ts, hsa: 126, gap_factor: 1, slot_bits: 100, ttr: None, period_div: 4, members0: vec![], scripts: vec![], multi: false, mon: RMon::C12, max_visits: 140, join_budget: 1, origin_us: 0, baud: 1 };
             cfgs.push((format!("TS{ts} HSA126"), cfg, 400, 200.0, 300_000));
+        }
+    }
+    // baud rates: the HSA-4 and HSA-5 worlds once more at 9600 baud, 1.5 and 12 Mbit/s (minimum slot time of the rate)
+    {
+        let base: Vec<_> = cfgs.iter().filter(|(_, c, ..)| (c.hsa == 4 || (c.hsa == 5 && tier == Tier::Thorough)) && c.gap_factor == 1 && c.members0.len() <= 1).cloned().collect();
+        for (label, cfg, depth, secs, cap) in base {
+            for baud in [0u8, 3, 4] {
+                let mut c = cfg.clone();
+                c.baud = baud;
+                c.slot_bits = c.slot_bits.max(crate::w2::MIN_SLOT[baud as usize]);
+                cfgs.push((format!("{label} baud#{baud}"), c, depth, secs, cap));
+            }
         }
     }
     let n_r = cfgs.len();
@@ -247,7 +259,7 @@ pub fn run_c15(tier: Tier) -> ! {
                     if ttr.is_some() && (s.len() < 2 || !members0.is_empty()) && tier == Tier::Quick {
                         continue;
                     }
-                    let cfg = RCfg { ts, hsa: 6, gap_factor: 10, slot_bits: 100, ttr, period_div, members0: members0.clone(), scripts: vec![s.clone()], multi: true, mon: RMon::C15, max_visits: visits, join_budget: 0, origin_us: 0 };
+                    let cfg = RCfg { ts, hsa: 6, gap_factor: 10, slot_bits: 100, ttr, period_div, members0: members0.clone(), scripts: vec![s.clone()], multi: true, mon: RMon::C15, max_visits: visits, join_budget: 0, origin_us: 0, baud: 1 };
                     cfgs.push((format!("1app {:?} ring{:?} ttr{:?} div{period_div}", s, members0, ttr), cfg, depth, wcap, 400_000));
                 }
             }
@@ -279,7 +291,7 @@ pub fn run_c15(tier: Tier) -> ! {
                     if period_div != 8 && (a.len() > 2 || b.len() > 2) {
                         continue;
                     }
-                    let cfg = RCfg { ts, hsa: 6, gap_factor: 10, slot_bits: 100, ttr, period_div, members0: members0.clone(), scripts: vec![a.clone(), b.clone()], multi: true, mon: RMon::C15, max_visits: if ttr.is_some() { visits + 2 } else { visits }, join_budget: 0, origin_us: 0 };
+                    let cfg = RCfg { ts, hsa: 6, gap_factor: 10, slot_bits: 100, ttr, period_div, members0: members0.clone(), scripts: vec![a.clone(), b.clone()], multi: true, mon: RMon::C15, max_visits: if ttr.is_some() { visits + 2 } else { visits }, join_budget: 0, origin_us: 0, baud: 1 };
                     cfgs.push((format!("2apps {:?}/{:?} ring{:?} ttr{:?} div{period_div}", a, b, members0, ttr), cfg, depth, wcap, 400_000));
                 }
             }
@@ -310,7 +322,7 @@ pub fn run_c15(tier: Tier) -> ! {
                     if ttr.is_some() && tier == Tier::Quick {
                         continue;
                     }
-                    let cfg = RCfg { ts, hsa: 6, gap_factor: 10, slot_bits: 100, ttr, period_div, members0: members0.clone(), scripts: tr.clone(), multi: true, mon: RMon::C15, max_visits: visits - 1, join_budget: 0, origin_us: 0 };
+                    let cfg = RCfg { ts, hsa: 6, gap_factor: 10, slot_bits: 100, ttr, period_div, members0: members0.clone(), scripts: tr.clone(), multi: true, mon: RMon::C15, max_visits: visits - 1, join_budget: 0, origin_us: 0, baud: 1 };
                     cfgs.push((format!("3apps ring{:?} ttr{:?}", members0, ttr), cfg, depth - 2, wcap, 400_000));
                 }
             }
@@ -320,7 +332,7 @@ pub fn run_c15(tier: Tier) -> ! {
                     for b in &s1 {
                         for c in &s1 {
                             for d in &s1 {
-                                let cfg = RCfg { ts, hsa: 6, gap_factor: 10, slot_bits: 100, ttr: None, period_div, members0: members0.clone(), scripts: vec![a.clone(), b.clone(), c.clone(), d.clone()], multi: true, mon: RMon::C15, max_visits: visits - 1, join_budget: 0, origin_us: 0 };
+                                let cfg = RCfg { ts, hsa: 6, gap_factor: 10, slot_bits: 100, ttr: None, period_div, members0: members0.clone(), scripts: vec![a.clone(), b.clone(), c.clone(), d.clone()], multi: true, mon: RMon::C15, max_visits: visits - 1, join_budget: 0, origin_us: 0, baud: 1 };
                                 cfgs.push((format!("4apps ring{:?}", members0), cfg, depth - 2, wcap, 400_000));
                             }
                         }
@@ -338,7 +350,7 @@ pub fn run_c15(tier: Tier) -> ! {
                         if ttr.is_some() && tier == Tier::Quick && !members0.is_empty() {
                             continue;
                         }
-                        let cfg = RCfg { ts, hsa: 6, gap_factor: 10, slot_bits: 100, ttr, period_div, members0: members0.clone(), scripts: vec![s.clone()], multi: true, mon: RMon::C15, max_visits: visits, join_budget: 0, origin_us: 0 };
+                        let cfg = RCfg { ts, hsa: 6, gap_factor: 10, slot_bits: 100, ttr, period_div, members0: members0.clone(), scripts: vec![s.clone()], multi: true, mon: RMon::C15, max_visits: visits, join_budget: 0, origin_us: 0, baud: 1 };
                         cfgs.push((format!("1app unicast-sdn {:?} ring{:?} ttr{:?} div{period_div}", s, members0, ttr), cfg, depth, wcap, 400_000));
                     }
                 }
@@ -348,13 +360,13 @@ pub fn run_c15(tier: Tier) -> ! {
                         if !a.iter().chain(b.iter()).any(|x| matches!(x, Step::Sdn(_))) {
                             continue;
                         }
-                        let cfg = RCfg { ts, hsa: 6, gap_factor: 10, slot_bits: 100, ttr: None, period_div, members0: members0.clone(), scripts: vec![a.clone(), b.clone()], multi: true, mon: RMon::C15, max_visits: visits, join_budget: 0, origin_us: 0 };
+                        let cfg = RCfg { ts, hsa: 6, gap_factor: 10, slot_bits: 100, ttr: None, period_div, members0: members0.clone(), scripts: vec![a.clone(), b.clone()], multi: true, mon: RMon::C15, max_visits: visits, join_budget: 0, origin_us: 0, baud: 1 };
                         cfgs.push((format!("2apps unicast-sdn {:?}/{:?} ring{:?} div{period_div}", a, b, members0), cfg, depth, wcap, 400_000));
                     }
                 }
             }
             // zero applications through poll_multi
-            let cfg = RCfg { ts, hsa: 6, gap_factor: 10, slot_bits: 100, ttr: None, period_div, members0: members0.clone(), scripts: vec![], multi: true, mon: RMon::C15, max_visits: 4, join_budget: 0, origin_us: 0 };
+            let cfg = RCfg { ts, hsa: 6, gap_factor: 10, slot_bits: 100, ttr: None, period_div, members0: members0.clone(), scripts: vec![], multi: true, mon: RMon::C15, max_visits: 4, join_budget: 0, origin_us: 0, baud: 1 };
             cfgs.push((format!("0apps ring{:?}", members0), cfg, 6, 10.0, 10_000));
         }
     }
@@ -367,6 +379,19 @@ pub fn run_c15(tier: Tier) -> ! {
                 let mut c = cfg.clone();
                 c.origin_us = origin;
                 cfgs.push((format!("{label} clock origin {origin}us"), c, depth, secs, cap));
+            }
+        }
+    }
+    // baud rates: 9600 baud, 1.5 and 12 Mbit/s (bit times below a microsecond: min Tsdr rounds to 0 us) at the
+    // minimum slot time of the rate, on the same selection of worlds
+    {
+        let base: Vec<_> = cfgs.iter().filter(|(l, c, ..)| c.origin_us == 0 && c.period_div == 8 && c.scripts.len() <= 2 && c.scripts.iter().map(|s| s.len()).sum::<usize>() >= 2 && (tier == Tier::Thorough || (c.members0.len() <= 1 && l.len() % 5 == 0))).cloned().collect();
+        for (label, cfg, depth, secs, cap) in base {
+            for baud in [0u8, 3, 4] {
+                let mut c = cfg.clone();
+                c.baud = baud;
+                c.slot_bits = c.slot_bits.max(crate::w2::MIN_SLOT[baud as usize]);
+                cfgs.push((format!("{label} baud#{baud}"), c, depth, secs, cap));
             }
         }
     }
